@@ -33,6 +33,7 @@ type task struct {
 
 	cond      *sync.Cond
 	running   bool
+	deleted   bool // Set by GC once the task is removed from Limiter.tasks.
 	output    interface{}
 	expiresAt time.Time
 }
@@ -74,34 +75,46 @@ func NewLimiter(clk clock.Clock, runner TaskRunner) *Limiter {
 func (l *Limiter) Run(input interface{}) interface{} {
 	l.gc.Trap()
 
-	l.RLock()
-	t, ok := l.tasks[input]
-	l.RUnlock()
-	if !ok {
-		// Slow path, must initialize task struct under global write lock.
-		l.Lock()
-		t, ok = l.tasks[input]
+	for {
+		l.RLock()
+		t, ok := l.tasks[input]
+		l.RUnlock()
 		if !ok {
-			t = newTask(input)
-			l.tasks[input] = t
+			// Slow path, must initialize task struct under global write lock.
+			l.Lock()
+			t, ok = l.tasks[input]
+			if !ok {
+				t = newTask(input)
+				l.tasks[input] = t
+			}
+			l.Unlock()
 		}
-		l.Unlock()
+		if output, ok := l.getOutput(t); ok {
+			return output
+		}
+		// GC removed t between the lookup and getOutput. Running on the
+		// detached task would not be deduplicated, so look it up again.
 	}
-	return l.getOutput(t)
 }
 
-func (l *Limiter) getOutput(t *task) interface{} {
+// getOutput returns false if t was garbage collected before it could be used.
+func (l *Limiter) getOutput(t *task) (interface{}, bool) {
 	t.cond.L.Lock()
+
+	if t.deleted {
+		t.cond.L.Unlock()
+		return nil, false
+	}
 
 	if !t.expired(l.clk.Now()) {
 		defer t.cond.L.Unlock()
-		return t.output
+		return t.output, true
 	}
 
 	if t.running {
 		t.cond.Wait()
 		defer t.cond.L.Unlock()
-		return t.output
+		return t.output, true
 	}
 
 	t.running = true
@@ -117,7 +130,7 @@ func (l *Limiter) getOutput(t *task) interface{} {
 
 	t.cond.Broadcast()
 
-	return output
+	return output, true
 }
 
 type limiterTaskGC struct {
@@ -131,6 +144,10 @@ func (gc *limiterTaskGC) Run() {
 	for input, t := range gc.limiter.tasks {
 		t.cond.L.Lock()
 		expired := t.expired(gc.limiter.clk.Now()) && !t.running
+		if expired {
+			// Callers which already hold t must not run on it anymore.
+			t.deleted = true
+		}
 		t.cond.L.Unlock()
 		if expired {
 			delete(gc.limiter.tasks, input)
